@@ -117,6 +117,14 @@ def build(c, syntax):
         return {'tree': expr_to_json(models.loglogit(util, av, choice))}
     if kind == 'logit':
         return {'tree': expr_to_json(models.logit(util, av, choice))}
+    if kind in ('logmev_es', 'mev_es'):
+        lg = mk_dict(c['log_gi'])
+        corr = mk_dict(c['correction'])
+        # earlier calls with the SAME dictionaries (one call per alternative / per function, as a user does)
+        for f, i in c.get('warmup') or []:
+            (models.mev_endogenous_sampling if f == 'P' else models.logmev_endogenous_sampling)(util, lg, av, corr, int(i))
+        f = models.logmev_endogenous_sampling if kind == 'logmev_es' else models.mev_endogenous_sampling
+        return {'tree': expr_to_json(f(util, lg, av, corr, choice))}
     if kind in ('logmev', 'mev'):
         lg = mk_dict(c['log_gi'])
         f = models.logmev if kind == 'logmev' else models.mev
